@@ -1,6 +1,7 @@
 #!/bin/sh
 # Run the pinned suite and compare with BASELINE.json's stable_pass list.
 cd /repo && /venv/bin/python -m pytest -q -p no:cacheprovider --timeout=900 --continue-on-collection-errors -n 8 --junitxml=/tmp/baseline_junit.xml >/tmp/baseline_out.txt 2>&1
+rm -f /repo/tmp*.spc   # the suite's x13 tests leave their spec files in the working directory
 /venv/bin/python - <<'PY'
 import json, xml.etree.ElementTree as ET
 base = set(json.load(open('/root/.vp/BASELINE.json'))['stable_pass'])
